@@ -288,6 +288,8 @@ def replay(case):
     import vopy.confidence_region as cr
     if case.get("kind") == "auer_induct":
         return _replay_auer(case)
+    if case.get("kind") == "auer_hist":
+        return _replay_auer_hist(case)
     cls_name, ctype, N = case["cls"], case["ctype"], case["N"]
     W = np.array(case["W"], dtype=float)
     K, m = W.shape
@@ -419,6 +421,120 @@ def auer_induct_task(N, m, widths, tier, base_only=False):
     r = ex.result()
     r["config"] = {"cls": "Auer", "N": N, "m": m, "widths": widths, "pre_states": len(sts)}
     return r
+
+
+def auer_hist_task(N, m, widths, tier, rounds=2, initial_S=None):
+    """consecutive rounds of the real Auer phases, fresh valid regions per round (as modeling() rebuilds them), from the initial
+    state or from a sparse one (only `initial_S` still candidates, the rest discarded earlier with J1 holding — a hopeless
+    design is discarded in round 1; positions in S and design ids then differ).  Claims after every round: J1 and J2 — the
+    two halves of the guarantee itself, on a reachable history."""
+    mod = A.amod("Auer")
+    S0 = set(initial_S) if initial_S is not None else set(range(N))
+    ex = Explorer(f"C01:hist:Auer[N={N},m={m},widths={widths},S0={sorted(S0)},rounds={rounds}]", query_timeout_ms=60000,
+                  max_paths=400000)
+    ex.stop_after_candidates = 3
+
+    def body(ctx):
+        import vopy.confidence_region as cr
+        eps = ctx.real("eps")
+        ctx.assume(eps > 0)
+        a = A.build("Auer", N, m, None, None, eps, use_empirical_beta=(widths != "homogeneous"))
+        mu = ctx.reals("mu", N, m)
+        muz = zs(mu)
+        dom_t = lambda q, d: zand([muz[q][k] >= muz[d][k] for k in range(m)])  # noqa
+        ok = lambda j, p: zor([muz[j][k] <= muz[p][k] + eps.e for k in range(m)])  # noqa
+        J1 = lambda S_, P_, D_: zand([zor([dom_t(q, d) for q in (S_ | P_)]) for d in D_])  # noqa
+        J2 = lambda P_: zand([ok(j, p) for p in P_ for j in range(N) if j != p])  # noqa
+        D = set(range(N)) - S0
+        ctx.assume(J1(S0, set(), D))
+        a.S, a.P = set(S0), set()
+        hist = []
+        for r in range(rounds):
+            if not a.S:
+                break
+            c = ctx.reals(f"c{r}", N, m)
+            if widths == "homogeneous":
+                b0 = ctx.real(f"beta{r}")
+                beta = symarray([[b0] * m for _ in range(N)])
+            elif widths == "per_design":
+                bb = ctx.reals(f"beta{r}", N)
+                beta = symarray([[bb.view(np.ndarray)[i]] * m for i in range(N)])
+            else:
+                beta = ctx.reals(f"beta{r}", N, m)
+            ctx.assume(beta > 0)
+            cz, bz = zs(c), zs(beta)
+            for i in a.S:
+                ctx.assume(zand([z3.And(muz[i][k] >= cz[i][k] - bz[i][k], muz[i][k] <= cz[i][k] + bz[i][k]) for k in range(m)]))
+            hist.append((cz, bz))
+            regs = list(a.design_space.confidence_regions)
+            for i in a.S:
+                rg = cr.RectangularConfidenceRegion.__new__(cr.RectangularConfidenceRegion)
+                rg.intersect_iteratively = False
+                rg.lower, rg.upper = c[i] - beta[i], c[i] + beta[i]
+                regs[i] = rg
+            a.design_space.confidence_regions = regs
+            a.beta_t = symarray([list(beta.view(np.ndarray)[i]) for i in list(a.S)])
+            pre = set(a.S)
+            with patched((mod, {"np": NpProxy()})):
+                a.discarding()
+                a.pareto_updating()
+            S2, P2 = set(a.S), set(a.P)
+            D = D | {i for i in pre if i not in S2 and i not in P2}
+            ctx.witness(f"round{r}:|S'|={len(S2)},|P'|={len(P2)}")
+            claims = {"J1: every eliminated design is dominated by a kept one": J1(S2, P2, D),
+                      "J2: no design exceeds a member of P by ε in every objective": J2(P2)}
+            for name, cl in claims.items():
+                mdl = ctx.prove(f"{name} (after round {r + 1})", cl)
+                if mdl is not None:
+                    mv = lambda e: model_value(mdl, e)  # noqa
+                    ex.candidate(name, {"kind": "auer_hist", "N": N, "m": m, "eps": frac_json(mv(eps.e)), "widths": widths,
+                                        "S0": sorted(S0), "claim": name,
+                                        "rounds": [{"c": frac_json([[mv(e) for e in r_] for r_ in cz_]),
+                                                    "beta": frac_json([[mv(e) for e in r_] for r_ in bz_])} for cz_, bz_ in hist],
+                                        "mu": frac_json([[mv(e) for e in r_] for r_ in muz])},
+                                 {"cls": "Auer", "widths": widths, "claim": name[:2], "rounds": len(hist)})
+                    return
+        ctx.sample({"S0": sorted(S0), "post": [sorted(a.S), sorted(a.P)], "widths": widths, "rounds_run": len(hist)})
+
+    ex.run(body)
+    ex.finalize(replay)
+    r = ex.result()
+    r["config"] = {"cls": "Auer", "N": N, "m": m, "widths": widths, "S0": sorted(S0), "rounds": rounds}
+    return r
+
+
+def _replay_auer_hist(case):
+    import vopy.confidence_region as cr
+    N, m = case["N"], case["m"]
+    G = lambda v: np.array([[float(Fraction(x)) for x in row] for row in from_frac_json(v)])  # noqa
+    mu = G(case["mu"])
+    eps = float(Fraction(from_frac_json(case["eps"])))
+    a = A.build("Auer", N, m, None, None, eps, use_empirical_beta=(case["widths"] != "homogeneous"))
+    a.S, a.P = set(case["S0"]), set()
+    D = set(range(N)) - a.S
+    log = []
+    for rd in case["rounds"]:
+        if not a.S:
+            break
+        c, beta = G(rd["c"]), G(rd["beta"])
+        if any(np.any(np.abs(mu[i] - c[i]) > beta[i] + 1e-12) for i in a.S):
+            return {"reproduced": False, "detail": "truth outside region after float conversion"}
+        regs = list(a.design_space.confidence_regions)
+        for i in a.S:
+            regs[i] = cr.RectangularConfidenceRegion(m, c[i] - beta[i], c[i] + beta[i])
+        a.design_space.confidence_regions = regs
+        a.beta_t = np.array([beta[i] for i in list(a.S)])
+        a.discarding()
+        a.pareto_updating()
+        log.append((sorted(a.S), sorted(a.P)))
+    S2, P2 = set(a.S), set(a.P)
+    D2 = set(range(N)) - S2 - P2
+    j2 = [(p, j) for p in P2 for j in range(N) if j != p and np.all(mu[j] > mu[p] + eps * (1 + 1e-6))]
+    j1 = [d for d in D2 - D if not any(np.all(mu[q] >= mu[d]) for q in S2 | P2)]
+    return {"reproduced": bool(j1 or j2), "widths_differ_between_objectives":
+            bool(any(np.any(G(rd["beta"]).max(axis=1) - G(rd["beta"]).min(axis=1) > 0) for rd in case["rounds"])),
+            "detail": f"Auer, {len(log)} rounds from S={case['S0']} with every truth inside its displayed rectangle: (S, P) per round = {log}; "
+                      f"designs exceeding a member of P by ε in every objective: {j2}; eliminated without a dominating kept design: {j1}"}
 
 
 def _replay_auer(case):
